@@ -27,14 +27,20 @@ package ipam
 
 //@ -- ---------------------------------------------------------------- C21: release
 //@ -- A release request that fails (unknown address, stale sequence number, handle mismatch) fails wholesale:
-//@ -- the block is not touched - cooldown marking, sequence-number bumps and garbage collection happen only
+//@ -- the block is not touched - and a request carrying a sequence number that differs from the stored one does
+//@ -- fail - cooldown marking, sequence-number bumps and garbage collection happen only
 //@ -- on the success path, after every address of the request has passed its checks.
 //@ ghost c21Touched bool
+//@ ghost c21Stale bool
 //@ func (*allocationBlock).release
 //@   property C21
 //@   option safety off
-//@   requires b != nil && !c21Touched
+//@   requires b != nil && !c21Touched && !c21Stale
+//@   ghost at call GetSequenceNumberForOrdinal#1: c21Stale = c21Stale || (opts.SequenceNumber != nil && res != *opts.SequenceNumber)
 //@   ghost at call addCooldownAttribute: c21Touched = true
 //@   ghost at call SetSequenceNumberForOrdinal: c21Touched = true
 //@   ghost at call garbageCollect: c21Touched = true
 //@   ensures res2 != nil ==> !c21Touched
+//@   ensures c21Stale ==> res2 != nil
+//@   loop 1 invariant !c21Stale && !c21Touched
+//@   loop 2 invariant !c21Stale && !c21Touched
